@@ -73,7 +73,8 @@ def resolver_exhaustive(run):
     return n
 
 
-HDR = dict(BoxSize=2000.0, VelZSpace_to_kms=1250.0, ppd=1536.0, SimSet='AbacusSummit', ParticleSubsampleA=0.03, ParticleSubsampleB=0.07)
+HDR = dict(BoxSize=2000.0, VelZSpace_to_kms=1250.0, ppd=float(1536 ** 3) ** (1 / 3),      # = 1535.9999999999993: the header stores NP**(1/3)
+           SimSet='AbacusSummit', ParticleSubsampleA=0.03, ParticleSubsampleB=0.07)
 
 
 def make_file(tmp, name, cols, lightcone=False):
@@ -87,7 +88,7 @@ def make_file(tmp, name, cols, lightcone=False):
 
 
 def expected_columns(kind, raw, load, dtype):
-    box, velz, ppd = HDR['BoxSize'], HDR['VelZSpace_to_kms'], int(HDR['ppd'])
+    box, velz, ppd = HDR['BoxSize'], HDR['VelZSpace_to_kms'], int(round(HDR['ppd']))
     out = {}
     if kind == 'rvint':
         pv = [[C04.ref_rvint(w, box) for w in row] for row in raw]
